@@ -23,7 +23,7 @@ class SelectChoiceValidator:
 
         if self._question.supports_multiple_choices():
             # Check for a separated comma values
-            if not re.match("^[a-zA-Z0-9_-]+(?:,[a-zA-Z0-9_-]+)*$", selected_choices):
+            if not re.match(r"^[^,]+(?:,[^,]+)*\Z", selected_choices):
                 raise ValueError(self._question.error_message.format(selected))
 
             # Only the blanks around the separated values are insignificant
